@@ -314,6 +314,14 @@ def _dict(it, x=None, **kw):
     return d
 
 
+@model(dict.fromkeys)
+def _fromkeys(it, keys, value=None):
+    d = SDict()
+    for k in it.iterate(keys):
+        it.setitem(d, k, value)      # every key maps to the SAME value object, as in CPython
+    return d
+
+
 @model(range)
 def _range(it, *a):
     if not all(isinstance(x, int) for x in a):
@@ -430,6 +438,17 @@ def _max(it, *a):
 @model(print)
 def _print(it, *a, **k):
     return None
+
+
+@model(getattr)
+def _getattr(it, o, n, *default):
+    I = _I()
+    try:
+        return it.getattr(o, n)
+    except I.PyRaise as e:
+        if default and e.cls is AttributeError:
+            return default[0]
+        raise
 
 
 @model(hasattr)
@@ -637,6 +656,37 @@ if np is not None:
 
 # ------------------------------------------------------------------------------------------------
 # random (assumed contracts: choice returns an element, shuffle permutes)
+
+
+@model(random.shuffle)
+def _shuffle(it, xs):
+    """Assumed contract of random.shuffle: afterwards the list is a permutation of what it was.
+    Only for a list of n distinct concrete cards: position i holds the card with index idx_i, the
+    idx_i are pairwise distinct members of the original list, and (a permutation is a bijection)
+    every original card c has a position pos_c with  idx_i == c  <=>  pos_c == i."""
+    if not isinstance(xs, SList) or not all(V.is_card(c) and not isinstance(c, SObj)
+                                             for c in xs.items):
+        raise EngineError('random.shuffle: only lists of concrete cards are modelled')
+    codes = [V.card_index(c) for c in xs.items]
+    if len(set(codes)) != len(codes):
+        raise EngineError('random.shuffle: duplicate cards')
+    n = len(codes)
+    ctx = it.ctx
+    idx = [ctx.fresh_int(f'shuf_idx{i}') for i in range(n)]
+    pos = {c: ctx.fresh_int(f'shuf_pos{c}') for c in codes}
+    for t in idx:
+        ctx.assume_type(z3.Or([t == c for c in codes]) if codes != list(range(52))
+                        else z3.And(t >= 0, t <= 51))
+    for c in codes:
+        ctx.assume_type(z3.And(pos[c] >= 0, pos[c] < n))
+    ctx.assume_type(z3.Distinct(idx))
+    for i in range(n):
+        for c in codes:
+            ctx.assume_type((idx[i] == c) == (pos[c] == i))
+    from .dsl import CardElem
+    ce = CardElem()
+    xs.items = [ce.wrap(t) for t in idx]
+    return None
 
 
 @model(random.choice)
